@@ -45,6 +45,9 @@ struct Slot {
 	std::shared_ptr<RecLogger> logger;
 	bool recMicro = false;
 	int steps = 0;
+	bool lastWasIdle = false;
+	std::string lastCfg;
+	long idleSkipped = 0;
 };
 
 struct Run {
@@ -113,6 +116,13 @@ static void doStep(const std::string& actor, Slot& s, Interpreter& interp, size_
 	resOut = stateName(st);
 	std::string cfg;
 	if (st != USCXML_INITIALIZED) cfg = configOf(interp);
+	// a run of identical IDLE results (spinning step(0)) is recorded once
+	if (st == USCXML_IDLE && s.lastWasIdle && cfg == s.lastCfg) {
+		s.idleSkipped++;
+		return;
+	}
+	s.lastWasIdle = (st == USCXML_IDLE);
+	s.lastCfg = cfg;
 	tr::Rec r(s.tag, "st");
 	r.str(resOut).str(cfg);
 	if (s.recMicro && st != USCXML_INITIALIZED) {
